@@ -160,8 +160,11 @@ class Sched(object):
 class FakeTimeModule(object):
     def __init__(self, sched):
         self._s = sched
+        self.point_on_time = False  # when set, reading the clock is a scheduling point too
 
     def time(self):
+        if self.point_on_time:
+            self._s.point("time")
         return self._s.now
 
     def sleep(self, d):
